@@ -52,6 +52,7 @@ type modelState struct {
 	nowCalls       int
 	lastNow        *TimeV
 	branchMemo     map[int]bool
+	renderModel    map[string]interface{}
 }
 
 func (ex *Exec) modelReset() {
@@ -682,5 +683,3 @@ func goTypeString(t types.Type) string {
 }
 
 var _ = fmt.Sprint
-
-func (ex *Exec) parsePred(s string) (*smt.Term, error) { return nil, fmt.Errorf("not implemented") }
